@@ -7,7 +7,7 @@ Open Scope char_scope.
 Inductive sexp := Atom (s : str) | Lst (l : list sexp).
 
 (* results of modelled calls: a value or a Python exception class *)
-Inductive err := EValue | EKey | EType | EIndex | ENotFound | EValidation | EXml | EOther.
+Inductive err := EValue | EKey | EType | EIndex | ENotFound | EValidation | EXml | EOther | EUnsupported.
 Inductive res (A : Type) := Ok (a : A) | Err (e : err).
 Arguments Ok {A}. Arguments Err {A}.
 Definition rbind {A B} (r : res A) (f : A -> res B) : res B := match r with Ok a => f a | Err e => Err e end.
@@ -29,7 +29,7 @@ Definition e_pair {A B} (f : A -> sexp) (g : B -> sexp) (p : A * B) : sexp := Ls
 Definition e_err (e : err) : sexp :=
   Lst [e_sym "err"; e_sym match e with EValue => "ValueError" | EKey => "KeyError" | EType => "TypeError"
        | EIndex => "IndexError" | ENotFound => "FileNotFoundError" | EValidation => "ValidationError"
-       | EXml => "XMLSyntaxError" | EOther => "Other" end].
+       | EXml => "XMLSyntaxError" | EOther => "Other" | EUnsupported => "Unsupported" end].
 Definition e_res {A} (f : A -> sexp) (r : res A) : sexp :=
   match r with Ok a => Lst [e_sym "ok"; f a] | Err e => e_err e end.
 
